@@ -263,6 +263,94 @@ struct Run {
                 impl([&] { e.insert(i, etl::basic_string_view<Char>(e), p, n); });
                 ref(i <= r.size() && p <= r.size(), [&] { r.insert(i, std::basic_string_view<Char>(r), p, n); });
             }
+        } else if (op == "erd" || op == "subd") {
+            // the default arguments as written in the header: erase() / s = s.substr()
+            if (op == "erd") {
+                impl([&] { e.erase(); });
+                ref(true, [&] { r.erase(); });
+            } else {
+                impl([&] { e = e.substr(); });
+                ref(true, [&] { r = r.substr(); });
+            }
+        } else if (op == "er1" || op == "sub1") {
+            auto i = static_cast<std::size_t>(in.unum());
+            if (op == "er1") {
+                impl([&] { e.erase(i); });
+                ref(i <= r.size(), [&] { r.erase(i); });
+            } else {
+                impl([&] { e = e.substr(i); });
+                ref(i <= r.size(), [&] { r = r.substr(i); });
+            }
+        } else if (op == "ass2" || op == "avs2" || op == "zss2" || op == "zvs2") {
+            // (str | view, pos) with the default count
+            Src<Char> src(in.list());
+            auto p = static_cast<std::size_t>(in.unum());
+            etl::basic_string_view<Char> ev(src.p, src.n);
+            std::basic_string_view<Char> rv(src.p, src.n);
+            if (op == "ass2") {
+                impl([&] { E o(static_cast<Char const*>(src.p), src.n); e.append(o, p); });
+                ref(src.n <= Cap && p <= src.n, [&] { r.append(S(src.p, src.n), p); });
+            } else if (op == "avs2") {
+                impl([&] { e.append(ev, p); });
+                ref(p <= src.n, [&] { r.append(rv, p); });
+            } else if (op == "zss2") {
+                impl([&] { E o(static_cast<Char const*>(src.p), src.n); e.assign(o, p); });
+                ref(src.n <= Cap && p <= src.n, [&] { r.assign(S(src.p, src.n), p); });
+            } else {
+                impl([&] { e.assign(ev, p); });
+                ref(p <= src.n, [&] { r.assign(rv, p); });
+            }
+        } else if (op == "iss3" || op == "ivs3") {
+            auto i = static_cast<std::size_t>(in.unum());
+            Src<Char> src(in.list());
+            auto p = static_cast<std::size_t>(in.unum());
+            if (op == "iss3") {
+                impl([&] { E o(static_cast<Char const*>(src.p), src.n); e.insert(i, o, p); });
+                ref(src.n <= Cap && i <= r.size() && p <= src.n, [&] { r.insert(i, S(src.p, src.n), p); });
+            } else {
+                etl::basic_string_view<Char> ev(src.p, src.n);
+                std::basic_string_view<Char> rv(src.p, src.n);
+                impl([&] { e.insert(i, ev, p); });
+                ref(i <= r.size() && p <= src.n, [&] { r.insert(i, rv, p); });
+            }
+        } else if (op == "plsx" || op == "pesx") {
+            // operator+ / operator+= with a string of ANOTHER capacity (5) on the right: it is not a
+            // basic_inplace_string<Char, Cap>, so the string_view overload of append runs (clamps, no precondition)
+            using E5 = etl::basic_inplace_string<Char, 5>;
+            Src<Char> src(in.list());
+            bool const ok = src.n <= 5;
+            if (op == "plsx") {
+                impl([&] { E5 o(static_cast<Char const*>(src.p), src.n); e = e + o; });
+                ref(ok, [&] { r = r + S(src.p, src.n); });
+            } else {
+                impl([&] { E5 o(static_cast<Char const*>(src.p), src.n); e += o; });
+                ref(ok, [&] { r += S(src.p, src.n); });
+            }
+        } else if (op == "zveq" || op == "pev") {
+            // operator=(view) / operator+=(view)
+            Src<Char> src(in.list());
+            etl::basic_string_view<Char> ev(src.p, src.n);
+            std::basic_string_view<Char> rv(src.p, src.n);
+            if (op == "zveq") {
+                impl([&] { e = ev; });
+                ref(true, [&] { r = rv; });
+            } else {
+                impl([&] { e += ev; });
+                ref(true, [&] { r += rv; });
+            }
+        } else if (op == "zch") {
+            auto c = static_cast<Char>(in.num());
+            impl([&] { e = c; });
+            ref(true, [&] { r = c; });
+        } else if (op == "zst") {
+            Src<Char> src(in.list());
+            impl([&] { E o(static_cast<Char const*>(src.p), src.n); e.assign(o); });
+            ref(src.n <= Cap, [&] { r.assign(S(src.p, src.n)); });
+        } else if (op == "kf") {
+            auto n = static_cast<std::size_t>(in.unum());
+            auto c = static_cast<Char>(in.num());
+            impl([&] { e = E(n, c); });
+            ref(n <= 100000, [&] { r = S(n, c); });
         } else if (op == "ip") {
             auto i = static_cast<std::size_t>(in.unum());
             Src<Char> src(in.list());
@@ -686,6 +774,92 @@ struct Run {
             v.push_back(0);
             return v;
         };
+        if (kind == "qdz") {
+            Src<Char> a(cstr());
+            Char const* p = a.p;
+            guarded(impl, [&](Out& o) { o.tok("ok").unum(call_fam(name, e, p)); });
+            ref.tok("ok").unum(call_fam(name, r, p));
+            return true;
+        }
+        if (kind == "qdc") {
+            auto c = static_cast<Char>(in.num());
+            guarded(impl, [&](Out& o) { o.tok("ok").unum(call_fam(name, e, c)); });
+            ref.tok("ok").unum(call_fam(name, r, c));
+            return true;
+        }
+        if (op == "c4s" || op == "c4v") {
+            // compare(pos1, count1, str | view, pos2) with the default count2
+            auto p1 = static_cast<std::size_t>(in.unum());
+            auto n1 = static_cast<std::size_t>(in.unum());
+            Src<Char> b(in.list());
+            auto p2 = static_cast<std::size_t>(in.unum());
+            if (op == "c4s") {
+                if (b.n > Cap) {
+                    impl.tok("contract");
+                    return true;
+                }
+                E eb(static_cast<Char const*>(b.p), b.n);
+                guarded(impl, [&](Out& o) { o.tok("ok").num(sign(e.compare(p1, n1, eb, p2))); });
+                if (p1 <= r.size() && p2 <= b.n) { ref.tok("ok").num(sign(r.compare(p1, n1, S(b.p, b.n), p2))); }
+            } else {
+                guarded(impl, [&](Out& o) { o.tok("ok").num(sign(e.compare(p1, n1, EV(b.p, b.n), p2))); });
+                if (p1 <= r.size() && p2 <= b.n) { ref.tok("ok").num(sign(r.compare(p1, n1, RV(b.p, b.n), p2))); }
+            }
+            return true;
+        }
+        if (op == "copy2") {
+            // copy(dest, count) with the default pos
+            auto cnt = static_cast<std::size_t>(in.unum());
+            std::vector<Char> dest(Cap + 2, Char(0));
+            guarded(impl, [&](Out& o) {
+                auto k = e.copy(dest.data(), cnt);
+                o.tok("ok").unum(k).unum(k);
+                for (std::size_t i = 0; i < k; ++i) { o.num(static_cast<i64>(dest[i])); }
+            });
+            std::vector<Char> d2(r.size() + 2, Char(0));
+            auto k = r.copy(d2.data(), cnt);
+            ref.tok("ok").unum(k).unum(k);
+            for (std::size_t i = 0; i < k; ++i) { ref.num(static_cast<i64>(d2[i])); }
+            return true;
+        }
+        if (op == "riter") {
+            // rbegin()/rend() and crbegin()/crend(), const and non-const: the characters in reverse order, twice
+            guarded(impl, [&](Out& o) {
+                o.tok("ok").unum(2 * e.size());
+                for (auto it = e.rbegin(); it != e.rend(); ++it) { o.num(static_cast<i64>(*it)); }
+                E const& ce = e;
+                for (auto it = ce.crbegin(); it != ce.crend(); ++it) { o.num(static_cast<i64>(*it)); }
+            });
+            ref.tok("ok").unum(2 * r.size());
+            for (auto it = r.rbegin(); it != r.rend(); ++it) { ref.num(static_cast<i64>(*it)); }
+            for (auto it = r.crbegin(); it != r.crend(); ++it) { ref.num(static_cast<i64>(*it)); }
+            return true;
+        }
+        if (op == "replace4") {
+            // replace(pos, count, str, pos2) with the default count2
+            auto pos = static_cast<std::size_t>(in.unum());
+            auto cnt = static_cast<std::size_t>(in.unum());
+            Src<Char> src(in.list());
+            auto pos2 = static_cast<std::size_t>(in.unum());
+            if (src.n > Cap) {
+                impl.tok("contract");
+                return true;
+            }
+            guarded(impl, [&](Out& o) {
+                E es(static_cast<Char const*>(src.p), src.n);
+                e.replace(pos, cnt, es, pos2);
+                o.tok("ok");
+                put_state(o, e);
+            });
+            if (pos <= r.size() && pos2 <= src.n) {
+                r.replace(pos, cnt, S(src.p, src.n), pos2);
+                if (r.size() <= Cap) {
+                    ref.tok("ok");
+                    put_state(ref, r);
+                }
+            }
+            return true;
+        }
         if (kind == "sp") {
             Src<Char> a(in.list());
             auto pos = static_cast<std::size_t>(in.unum());
